@@ -430,6 +430,7 @@ def rule_builtin_extractors(chk):
 
 def run(chk):
     rule_builtin_extractors(chk)
+    common.rule_defaults(chk, "C07")
     from . import c10
     c10.rule_rich(chk)
     rule_contain(chk)
